@@ -206,10 +206,11 @@ impl SwiftField for Field58 {
                 let field = Field58D::parse(value)?;
                 Ok(Field58::D(field))
             }
-            _ => {
-                // No variant specified, fall back to default parse behavior
-                Self::parse(value)
-            }
+            // No option letter given: fall back to content-based detection
+            None => Self::parse(value),
+            Some(other) => Err(ParseError::InvalidFormat {
+                message: format!("Field 58 has no option '{}'", other),
+            }),
         }
     }
 
